@@ -107,6 +107,7 @@ class Entry:
         self.needs_classes = needs_classes
         self.enc = enc
         self.is_wrapper = False
+        self.no_cold = False
         self.bs1_only = False
         self.loop = True
 
@@ -315,6 +316,47 @@ add("DropQuery_userdict", P.DropQuery,
     lambda s, ml=NAN: P.DropQuery(cluster_algo_dict={"n_init": 1}, missing_label=ml, random_state=s),
     lambda c: dict(clf=_ctx_clf(c)), model_arg="clf", lazy=True, feat=False)
 
+# ---- rarely used (documented) parameters
+add("Falcun_gamma0", P.Falcun, lambda s, ml=NAN: P.Falcun(gamma=0, missing_label=ml, random_state=s),
+    lambda c: dict(clf=_ctx_clf(c)), selection="sampling", model_arg="clf")
+add("Falcun_gamma_frac", P.Falcun, lambda s, ml=NAN: P.Falcun(gamma=0.5, missing_label=ml, random_state=s),
+    lambda c: dict(clf=_ctx_clf(c, "nb")), selection="sampling", model_arg="clf", domain=_nb_domain)
+add("DropQuery_params", P.DropQuery,
+    lambda s, ml=NAN: P.DropQuery(dropout_rate=0.3, n_dropout_samples=3, missing_label=ml, random_state=s),
+    lambda c: dict(clf=_ctx_clf(c)), model_arg="clf", lazy=True, feat=False)
+add("EMCM_params", P.ExpectedModelChangeMaximization,
+    lambda s, ml=NAN: P.ExpectedModelChangeMaximization(bootstrap_size=2, n_train=0.9, ord=1, missing_label=ml, random_state=s),
+    lambda c: dict(reg=reg_tree(c.get("ml", NAN))), kind="reg", arbitrary_index_ok=True, model_arg="reg")
+add("GreedySamplingX_manhattan", P.GreedySamplingX,
+    lambda s, ml=NAN: P.GreedySamplingX(metric="manhattan", missing_label=ml, random_state=s), kind="both",
+    arbitrary_index_ok=True, independent=True, perm=True)
+add("GreedySamplingTarget_nGSx3", P.GreedySamplingTarget,
+    lambda s, ml=NAN: P.GreedySamplingTarget(n_GSx_samples=3, y_metric="manhattan", missing_label=ml, random_state=s),
+    lambda c: dict(reg=reg_tree(c.get("ml", NAN))), kind="reg", arbitrary_index_ok=True, model_arg="reg")
+add("EpistemicUS_logreg", P.EpistemicUncertaintySampling,
+    lambda s, ml=NAN: P.EpistemicUncertaintySampling(missing_label=ml, random_state=s),
+    lambda c: dict(clf=clf_lr(c["classes"][:2], c.get("ml", NAN))), arbitrary_index_ok=True, binary=True, model_arg="clf", nmax=14,
+    slow=3, domain=lambda c: None if (c.n_classes_obs or 0) >= 2 else "logistic regression needs two observed classes")
+add("ProbabilisticAL_prior", P.ProbabilisticAL,
+    lambda s, ml=NAN: P.ProbabilisticAL(prior=0.01, m_max=3, missing_label=ml, random_state=s),
+    lambda c: dict(clf=_ctx_clf(c)), arbitrary_index_ok=True, independent=True, perm=True, model_arg="clf")
+add("BatchBALD_nMC", P.BatchBALD, lambda s, ml=NAN: P.BatchBALD(n_MC_samples=4, eps=1e-3, missing_label=ml, random_state=s),
+    lambda c: dict(ensemble=ens_list(c["classes"], c.get("ml", NAN))), arbitrary_index_ok=True, model_arg="ensemble", nmax=16)
+add("Clue_margin", P.Clue, lambda s, ml=NAN: P.Clue(method="margin_sampling", missing_label=ml, random_state=s),
+    lambda c: dict(clf=_ctx_clf(c, "tree")), model_arg="clf", lazy=True, feat=False)
+add("FourDs_lmbda", P.FourDs, lambda s, ml=NAN: P.FourDs(lmbda=0.3, missing_label=ml, random_state=s),
+    lambda c: dict(clf=clf_mix(c["classes"], c.get("ml", NAN))), model_arg="clf", nmax=20)
+add("ContrastiveAL_eps", P.ContrastiveAL,
+    lambda s, ml=NAN: P.ContrastiveAL(eps=1e-2, nearest_neighbors_dict={"n_neighbors": 2}, missing_label=ml, random_state=s),
+    lambda c: dict(clf=_ctx_clf(c, "tree")), arbitrary_index_ok=True, model_arg="clf", lazy=True)
+add("RT_repr_iter1", P.RegressionTreeBasedAL,
+    lambda s, ml=NAN: P.RegressionTreeBasedAL(method="representativity", max_iter_representativity=1, missing_label=ml, random_state=s),
+    lambda c: dict(reg=reg_tree(c.get("ml", NAN))), kind="reg", selection="rt", model_arg="reg")
+add("US_margin_cost", P.UncertaintySampling,
+    lambda s, ml=NAN: P.UncertaintySampling(method="margin_sampling", cost_matrix=_CM(), missing_label=ml, random_state=s),
+    lambda c: dict(clf=_ctx_clf(c, "lr")), arbitrary_index_ok=True, independent=True, perm=True, model_arg="clf",
+    domain=lambda c: None if (c.n_classes_obs or 0) >= 2 else "logistic regression needs two observed classes")
+
 # ---- the two pool wrappers are exported pool strategies themselves: as top-level entries they take part in C01 / C02 /
 # C05 / C06 / C09 and (parallel wrapper, whose domain is batch_size = 1) in the C14 loop
 add("Sub_US", P.SubSamplingWrapper,
@@ -330,6 +372,8 @@ add("Par_US", P.ParallelUtilityEstimationWrapper,
     lambda s, ml=NAN: P.ParallelUtilityEstimationWrapper(P.UncertaintySampling(method="margin_sampling", missing_label=ml, random_state=s),
                                                          n_jobs=-1, parallel_dict={"backend": "threading"}, missing_label=ml, random_state=s),
     lambda c: dict(clf=_ctx_clf(c)), model_arg="clf", lazy=True)
+for _n in ("EpistemicUS_logreg", "US_margin_cost"):
+    POOL[_n].no_cold = True            # the logistic regression model needs two observed classes
 for _n in ("Sub_US", "Sub_excl_RS", "Par_US"):
     POOL[_n].is_wrapper = True
 POOL["Par_US"].bs1_only = True          # documented domain of the parallel wrapper
